@@ -35,6 +35,7 @@ fn dispatch(op: &str, req: &Value) -> Value {
         "version" | "api" | "newtype" => ops_parse::run(op, req),
         "layer-struct" => ops_layer::layer_struct(req),
         "layer-trait" => ops_layer::layer_trait(req),
+        "layer-det" => ops_layer::layer_det(req),
         "writer" => ops_writer::run(req),
         "env-apply" => ops_env::apply(req),
         "env-roundtrip" => ops_env::roundtrip(req),
